@@ -2323,6 +2323,31 @@ def selftest(ctx):
     replay_literals(s, ldoc, 1, tamper="raw-value")
     ok.append(("literal holding an unconverted numpy value rejected", any("literal-equal-but-differ:IntValue:src=npint" in v[0] for v in s.viol)
                and any(v[0].startswith("C13:evalrepr:IntValue") for v in s.viol)))
+    # round trips: an unpickler that writes the saved slots onto a shared flyweight must be rejected, by the replay and by TLC
+    ldocs = tlc.decode_prints(res)
+    tdoc = next((d for d in ldocs if [(x["api"], x["sh"], x["fi"], x["of"]) for x in d["steps"]] == [("Zero", 1, 1, 0), ("pickle", 0, 0, 1)]), None)
+    if tdoc is None:
+        raise MachineryError("selftest: literal behaviour Zero(shape, free indices), pickle round trip not exported")
+    s = Sink()
+    for k in range(6):
+        replay_literals(s, tdoc, k)
+    ok.append(("uncorrupted pickle round trip of a zero with free indices accepted", not s.viol and not s.counts))
+    s = Sink()
+    replay_literals(s, tdoc, 1, tamper="restore-onto-flyweight")
+    s2 = Sink()
+    replay_literals(s2, tdoc, 1)
+    ok.append(("restored state written onto the cached zero rejected (and undone afterwards)",
+               any(v[0].startswith("C13:pickle-changes-object:Zero") for v in s.viol) and not s2.viol))
+    bad = json.loads(json.dumps(tdoc))
+    bad["steps"][1]["eqc"] = 2
+    s = Sink()
+    replay_literals(s, bad, 1)
+    ok.append(("wrong predicted equality class of a restored object rejected", any(v[0] == "C13:pickle:Zero:unequal" for v in s.viol)))
+    res = run_eqshare(mode="lit", n=0, mt=0, lit=(2, True, LIT_CLASSES, LIT_CLASSES + ("MultiIndex",)), invs=["LitLawsCex"], workers=1, timeout=600)
+    ctx.add_tlc(res)
+    cex = tlc.decode_prints(res)
+    ok.append(("TLC rejects the literal laws for a Zero.__getnewargs__ that leaves out the free indices", res.outcome == "invariant"
+               and bool(cex) and cex[0]["steps"][-1]["api"] == "pickle" and cex[0]["steps"][-1]["id"] >= ZERO_ID))
     res = run_eqshare(mode="lit", n=0, mt=0, lit=(2, True, ("FloatValue", "ComplexValue")), invs=["LitLawsCex"], workers=1, timeout=600)
     ctx.add_tlc(res)
     ok.append(("TLC rejects the literal laws for an IntValue constructor that does not convert", res.outcome == "invariant"
